@@ -18,6 +18,18 @@
      edge   a literal run (macro token) of 1..5000 bytes, then a reference with a
             boundary length of the format (3,4,16,17,18,272,273,4096,4097,65808) and a
             displacement from {1,2,3,m-1,m,4095,4096}, then optionally one more token
+     nibble a short literal run, then a reference whose length sits where a nibble of the
+            3-/4-byte length field rolls over (0x20/0x21, 0x120/0x121, 0x210/0x211,
+            0x1110/0x1111, 0x2110/0x2111, 0x8110/0x8111), then a literal / a near / a
+            far reference (and a far reference after the literal): exposes any consumer
+            that mis-tracks how many bytes a long reference produced
+     window exactly 4094..4097 bytes produced (by literals, or literals + a reference),
+            then a reference with every displacement in produced+1 .. 4096 (before the
+            start, by one or two bytes at the window edge) and the legal edge ones
+     rand   token sequences read from IOEnv.TOKENS (seeded random, written by the
+            harness: lengths log-uniform over the whole range of the format,
+            displacements anywhere in 1..min(produced,4096), several references per
+            stream); TLC checks they are well-formed, encodes and expands them
      fixed  empty / shorter than a header / unknown type / stored form / short wrapper
    Variants of each stream: exact; bare and 0x13-wrapped (lz11; lz10 wrapped too);
    every truncation (small, group) or the cuts around the last token (edge); a
@@ -51,12 +63,24 @@ EdgeDisps(m) == { x \in {1, 2, 3, m - 1, m, 4095, 4096} : 1 <= x /\ x <= m /\ x 
 \* the longest LZ11 reference, a few cases only
 HugeOK(F, m) == F.MaxLen >= 65808 /\ m \in (IF Quick THEN {1, 4096} ELSE {1, 3, 4096, 4097})
 
-\* GEN_FAM selects one family (the check runs the families as separate TLC processes)
-Fams == IF "GEN_FAM" \in DOMAIN IOEnv THEN {IOEnv.GEN_FAM} ELSE {"small", "group", "edge", "fixed"}
+\* lengths at which a nibble of the length field of the 3-byte / 4-byte LZ11 form rolls over
+NibbleLens(F) == { l \in (IF Quick THEN {33, 289, 529, 4368, 4369, 8465, 33041}
+                          ELSE {32, 33, 288, 289, 528, 529, 4368, 4369, 8464, 8465, 33040, 33041, 61713}) :
+                   l <= F.MaxLen }
+NibbleRuns == IF Quick THEN {1, 17} ELSE {1, 3, 17, 300}
+WindowEdge == {4094, 4095, 4096, 4097}
+
+\* seeded random token sequences written by the harness (mvh_lz tokgen): [fmt, ts]
+Toks == IF "TOKENS" \in DOMAIN IOEnv THEN ndJsonDeserialize(IOEnv.TOKENS) ELSE <<>>
+
+\* GEN_FAM selects one family (the check may run the families as separate TLC processes)
+Fams == IF "GEN_FAM" \in DOMAIN IOEnv THEN {IOEnv.GEN_FAM}
+        ELSE {"small", "group", "edge", "nibble", "window", "fixed"} \cup (IF Len(Toks) > 0 THEN {"rand"} ELSE {})
 
 Init == /\ fam \in Fams
-        /\ fmt \in {"lz10", "lz11"}
-        /\ ts = <<>>
+        /\ IF fam = "rand"
+           THEN \E i \in 1..Len(Toks) : fmt = Toks[i].fmt /\ ts = Toks[i].ts
+           ELSE fmt \in {"lz10", "lz11"} /\ ts = <<>>
 
 Extend ==
   LET F == FOf(fmt)
@@ -80,7 +104,24 @@ Extend ==
         \/ ~Quick /\ ts[2].len \in {3, 18} /\ ts[2].disp \in {1, 4096}
      /\ \E t \in {Lit(B)} \cup { Ref(3, dd) : dd \in { x \in {1, m, 4096} : x <= m /\ x <= 4096 } } : ts' = Append(ts, t)
 
-Next == Extend /\ UNCHANGED <<fam, fmt>>
+ExtendMore ==
+  LET F == FOf(fmt)
+      m == OutLen(ts)
+      k == Len(ts)
+      far == Min(m, 4096)
+  IN
+  \/ /\ fam = "nibble" /\ k = 0 /\ NibbleLens(F) # {}
+     /\ \E n \in NibbleRuns : ts' = <<Run(n, 23)>>
+  \/ /\ fam = "nibble" /\ k = 1
+     /\ \E l \in NibbleLens(F), dd \in {1, m} : (l < 30000 \/ (m = 1 /\ dd = 1)) /\ ts' = Append(ts, Ref(l, dd))
+  \/ /\ fam = "nibble" /\ k = 2
+     /\ \E t \in {Lit(B), Ref(3, 1), Ref(3, far), Ref(4, far \div 2 + 1)} : ts' = Append(ts, t)
+  \/ /\ fam = "nibble" /\ k = 3 /\ ts[3].k = "lit"
+     /\ ts' = Append(ts, Ref(4, far))
+  \/ /\ fam = "window" /\ k = 0
+     /\ \E n \in WindowEdge : ts' = <<Run(n, 11)>> \/ ts' = <<Run(n - 18, 11), Ref(18, 1)>>
+
+Next == (Extend \/ ExtendMore) /\ UNCHANGED <<fam, fmt>>
 Spec == Init /\ [][Next]_vars
 
 \* ------------------------------------------------------------------ classification of one stream for all entries
@@ -119,7 +160,10 @@ EmitSeq ==
       k == Len(ts)
       small == fam \in {"small", "group"}
       full  == k <= 4        \* sequences of 5 tokens (thorough) get the cheaper variants only
+      lean  == fam \in {"nibble", "window"}     \* exact / wrapped (and the window-edge references) only
   IN
+  \* token sequences read from a file must be well-formed for the format (else: harness defect)
+  /\ Assert(RefsOK(ts, 0) /\ \A i \in 1..k : InFormat(F, ts[i]), "generator: ill-formed token sequence")
   \* the exact stream must expand to what the token semantics says (generator self-check)
   /\ Assert(n = 0 \/ Decode(F, e, 0).out = Expand(ts), "generator: decoder and Expand disagree")
   /\ Line("exact", e)
@@ -128,13 +172,15 @@ EmitSeq ==
   \* header / last token (edge)
   /\ \A c \in (CASE fam = "small" -> IF full THEN 0..(Len(e) - 1) ELSE {Len(e) - 1}
                  [] fam = "group" -> { x \in 0..(Len(e) - 1) : x >= Len(e) - 7 }
+                 [] lean -> {}
                  [] OTHER -> { x \in {4, Len(e) - 2, Len(e) - 1} : 4 <= x /\ x < Len(e) }) :
         Line("cut", Prefix(e, c))
   /\ (small /\ k >= 1 /\ (k = 4 \/ fam = "group")) =>
         \A c \in { x \in 4..(Len(e) + 3) : x >= Len(e) - 3 \/ fam = "small" } :
            Line("cutwrapped", Prefix(Wrap(0, 0, 0, e), c))
   \* a reference reaching before the start of the output, at every token position
-  /\ \A i \in (IF small THEN 0..k ELSE { x \in {1} : x <= k }) :
+  /\ \A i \in (IF small THEN 0..k ELSE IF lean THEN {}
+               ELSE IF fam = "rand" THEN {k \div 2} ELSE { x \in {1} : x <= k }) :
        LET pre == Prefix(ts, i)
            m   == OutLen(pre)
            rest == IF i >= k THEN <<>> ELSE SubSeq(ts, i + 1, k)
@@ -143,7 +189,14 @@ EmitSeq ==
                /\ (small /\ full) => Line("beforewrapped", Wrap(0, 0, 0, EncodeN(F, pre \o <<Ref(F.MaxLen, m + 1)>>, m + F.MaxLen)))
           /\ (small /\ full /\ m + 1 < 4096) => Line("beforefar", EncodeN(F, pre \o <<Ref(4, 4096)>> \o rest, n + 4))
   \* statement-silent variants
-  /\ k >= 1 =>
+  \* window edge: every displacement that reaches before the start by one or two bytes, and the legal ones
+  /\ fam = "window" /\ k >= 1 =>
+       /\ \A dd \in (n + 1)..4096 :
+             /\ Line("beforeedge", EncodeN(F, Append(ts, Ref(3, dd)), n + 3))
+             /\ Line("beforeedgewrapped", Wrap(0, 0, 0, EncodeN(F, Append(ts, Ref(F.MaxLen, dd)), n + F.MaxLen)))
+       /\ \A dd \in { x \in {n - 1, n, 4095, 4096} : x <= n /\ x <= 4096 } :
+             Line("exact", Encode(F, Append(ts, Ref(3, dd))))
+  /\ (k >= 1 /\ ~lean) =>
        /\ Last(ts).k = "ref" => Line("over", EncodeN(F, ts, n - Last(ts).len + 1))
        /\ (small \/ (~Quick /\ ~BigRun(ts[1].len))) =>
             /\ Line("trail", e \o <<255>>)
